@@ -8,6 +8,7 @@ an ARBITRARY schedule `ops` of producer steps, consumer polls and the drop of th
 -/
 import ScyllaVerif.Proofs.Pager
 import ScyllaVerif.Proofs.PagerExec
+import ScyllaVerif.Proofs.PagerWake
 
 namespace ScyllaVerif.Props.C07
 open ScyllaVerif.Pager
@@ -619,22 +620,26 @@ example :
 One page fetch is one run of the request-execution core - `Exec.run`, C06's model of
 `run_request_no_side_effects` - over the plan "previous coordinator, then the load-balancing plan without
 it" (`PagerExec.pagePlan`, pager.rs 337-365). `PagerExec.fetches` is the sequence of these runs for one
-iteration: the load-balancing plans `lbs` (one per page, arbitrary duplicate-free node lists) and the
-outcomes of the attempts are the inputs, the coordinator of each completed fetch heads the next plan. The
+iteration: the load-balancing plans `lbs` (one per page, arbitrary duplicate-free node lists), for every
+page which pools yield a connection at which `get_connection()` call (C06's call-indexed targets: a node
+whose pool is empty is skipped without a request) and the outcomes of the attempts are the inputs; the
+coordinator of each completed fetch heads the next plan. The
 theorems below are about THESE traces (not about arbitrary `Trace` records): `tableNodes` / `tablePages`
 list, for every request of the iteration in order, the node it goes to and the page it asks for. -/
 
 section failover
 open ScyllaVerif.PagerExec
 variable (pol : ScyllaVerif.Retry.Policy) (idem : Bool) (cl : ScyllaVerif.Retry.Consistency)
-variable (lbs : List (List Nat × (Nat → ScyllaVerif.Exec.Outcome)))
+variable (lbs : List (List Nat × (Nat → ScyllaVerif.Exec.Target) × (Nat → ScyllaVerif.Exec.Outcome)))
 
 /-- The request log of the pager IS the request table of the execution-core runs: the `i`-th request on
 the wire - which the execution core sends to node `(tableNodes fs)[i]` - asks for page
 `(tablePages 0 fs)[i]` and carries the paging state returned with the page before it, under every
 schedule. In particular a request that fails over to another node carries the same state as the attempt
-before it (same page index). -/
-theorem request_log_matches_table (pages : List Page) (ops : List Op) (hne : ∀ p ∈ lbs, p.1 ≠ []) :
+before it (same page index) - also when the previous coordinator's pool yields no connection and the
+fetch starts on another node: only some node of every plan has to yield a connection. -/
+theorem request_log_matches_table (pages : List Page) (ops : List Op)
+    (hne : ∀ p ∈ lbs, ∃ n ∈ p.1, p.2.1 n 0 = true) :
     let fs := fetches pol idem cl none lbs
     let s := run (init pages (pageFaults (fs.map Fetch.trace))) ops
     ∀ i (h1 : i < s.log.length) (h2 : i < (tablePages 0 fs).length),
@@ -653,25 +658,50 @@ theorem request_log_matches_table (pages : List Page) (ops : List Op) (hne : ∀
 
 /-- Coordinator stability (pager.rs `stable_coordinator`, 337-365, 392, 482): along the fetches of an
 iteration every fetch but the last completed, and the FIRST request of the next page's fetch goes to the
-node that completed the previous page - whatever the load-balancing policy returned for that page. -/
-theorem first_request_goes_to_previous_coordinator : Stable (fetches pol idem cl none lbs) :=
-  fetches_stable pol idem cl lbs none
+node that completed the previous page - whatever the load-balancing policy returned for that page (all
+pools yielding connections; for a coordinator whose pool is empty see `dead_coordinator_is_skipped`). -/
+theorem first_request_goes_to_previous_coordinator (hall : ∀ p ∈ lbs, ∀ n j, p.2.1 n j = true) :
+    Stable (fetches pol idem cl none lbs) :=
+  fetches_stable pol idem cl lbs none hall
 
-/-- Within one page fetch: the first request goes to the head of the plan; after a `RetrySameTarget`
-decision the next request goes to the SAME node, after `RetryNextTarget` to a DIFFERENT node. -/
-theorem retry_goes_to_the_right_node (hne : ∀ p ∈ lbs, p.1 ≠ []) (hnd : ∀ p ∈ lbs, p.1.Nodup) :
+/-- Within one page fetch (all pools yielding connections): the first request goes to the head of the
+plan; after a `RetrySameTarget` decision the next request goes to the SAME node, after `RetryNextTarget`
+to a DIFFERENT node. -/
+theorem retry_goes_to_the_right_node (hall : ∀ p ∈ lbs, ∀ n j, p.2.1 n j = true) (hne : ∀ p ∈ lbs, p.1 ≠ [])
+    (hnd : ∀ p ∈ lbs, p.1.Nodup) :
     ∀ f ∈ fetches pol idem cl none lbs,
       f.nodes.head? = some (f.plan.getD 0 0) ∧ NodesChained f.nodes f.trace.decisions := by
   intro f hf
-  obtain ⟨c, lb, outs, hm, rfl⟩ := fetches_mem pol idem cl lbs none f hf
+  obtain ⟨c, lb, av, outs, hm, rfl⟩ := fetches_mem pol idem cl lbs none f hf
   have hplan : pagePlan c lb ≠ [] := by
     have := hne _ hm
     cases c <;> simp [pagePlan, this]
-  exact fetch_nodes pol idem cl (pagePlan c lb) outs (pagePlan_nodup c lb (hnd _ hm)) hplan
+  exact fetch_nodes pol idem cl (pagePlan c lb) av (hall _ hm) outs (pagePlan_nodup c lb (hnd _ hm)) hplan
 
-/-- Every fetch over a non-empty plan of connected nodes sends at least one request, and the number of
+/-- ... and more than "different from the previous one": whatever pools refuse a connection, once a
+next-target decision has left a node, NO later request of that fetch goes to it - the nodes reached by
+next-target hops of one fetch are pairwise different. -/
+theorem next_target_hops_never_return (hnd : ∀ p ∈ lbs, p.1.Nodup) :
+    ∀ f ∈ fetches pol idem cl none lbs, NodesNoReturn f.nodes f.trace.decisions := by
+  intro f hf
+  obtain ⟨c, lb, av, outs, hm, rfl⟩ := fetches_mem pol idem cl lbs none f hf
+  exact fetch_no_return pol idem cl (pagePlan c lb) av outs (pagePlan_nodup c lb (hnd _ hm))
+
+/-- The previous coordinator died between two pages (its pool yields no connection): the fetch of the next
+page skips it without a request and its first request goes to the next node of the plan - carrying, by
+`request_log_matches_table`, the paging state of the page before, NOT the start state. -/
+theorem dead_coordinator_is_skipped (c n1 : Nat) (lb : List Nat) (av : Nat → ScyllaVerif.Exec.Target)
+    (outs : Nat → ScyllaVerif.Exec.Outcome) (hdead : av c 0 = false) (hlive : av n1 0 = true)
+    (hplan : pagePlan (some c) lb = c :: n1 :: (pagePlan (some c) lb).drop 2) :
+    (⟨pagePlan (some c) lb, ScyllaVerif.Exec.run pol idem cl ((pagePlan (some c) lb).map av) outs⟩ : Fetch).nodes.head?
+      = some n1 := by
+  rw [hplan]
+  exact PagerExec.dead_coordinator_is_skipped pol idem cl c n1 _ av outs hdead hlive
+
+/-- Every fetch whose plan contains a node whose pool yields a connection sends at least one request
+(refusing nodes before it are skipped without a request), and the number of
 attempt outcomes the page loop sees is the number of requests. -/
-theorem every_fetch_sends_a_request (hne : ∀ p ∈ lbs, p.1 ≠ []) :
+theorem every_fetch_sends_a_request (hne : ∀ p ∈ lbs, ∃ n ∈ p.1, p.2.1 n 0 = true) :
     (∀ f ∈ fetches pol idem cl none lbs, f.trace.attempts ≠ []) ∧
     (pageFaults ((fetches pol idem cl none lbs).map Fetch.trace)).length
       = (tableNodes (fetches pol idem cl none lbs)).length :=
@@ -711,6 +741,17 @@ example :
     ScyllaVerif.PagerExec.tablePages 0 fs = [0, 0, 1, 1, 1, 2] ∧
     fs.map ScyllaVerif.PagerExec.Fetch.coordinator = [some 1, some 0, some 0] := by decide
 
+/-- Non-vacuity for a dead coordinator: node 0 serves page 0 and then loses its connections; the fetch of
+page 1 has the plan `[0, 1, 2]`, skips node 0 without a request and is served by node 1, which is the
+coordinator for page 2. -/
+example :
+    let fs := ScyllaVerif.PagerExec.fetches .default true .localQuorum none
+      [([0, 1, 2], (fun _ => ScyllaVerif.Exec.Target.always), fun _ => .ok),
+       ([0, 1, 2], (fun n => if n = 0 then ScyllaVerif.Exec.Target.never else ScyllaVerif.Exec.Target.always), fun _ => .ok),
+       ([2, 0, 1], (fun n => if n = 0 then ScyllaVerif.Exec.Target.never else ScyllaVerif.Exec.Target.always), fun _ => .ok)]
+    ScyllaVerif.PagerExec.tableNodes fs = [0, 1, 1] ∧ ScyllaVerif.PagerExec.tablePages 0 fs = [0, 1, 2] ∧
+    ScyllaVerif.PagerExec.pageFaults (fs.map (·.trace)) = [.ok, .ok, .ok] := by decide
+
 example :
     ScyllaVerif.PagerExec.attemptsOfTrace (ScyllaVerif.PagerExec.clusterFetch 2 true ['o']) = [.retry, .ok] ∧
     ScyllaVerif.PagerExec.attemptsOfTrace (ScyllaVerif.PagerExec.clusterFetch 2 false ['o']) = [.fail "DbError:4097"] ∧
@@ -721,5 +762,100 @@ example :
     (runEager 60 (init [([0], some [1]), ([1], some [2]), ([2], none)]
       (ScyllaVerif.PagerExec.clusterAttempts 3 true [['o'], ['b', 'R'], ['U']]))).delivered = [0, 1, 2] := by
   decide
+
+/-! ### wake-ups: a consumer that returned `Pending` is woken again
+
+`Model/PagerWake.lean` adds to the transition system who wakes the consumer task: a poll happens only when
+the task is runnable; `poll_recv` registers the receiver's waker exactly when it returns `Pending`; a
+`send` / the drop of the `Sender` wakes a registered receiver; `poll_fill_page` wakes its own task before it
+returns `Pending` after an EMPTY page (pager.rs 761). -/
+
+section wake
+open ScyllaVerif.PagerWake
+
+/-- Every wake-aware execution is an execution of the plain transition system (for a sub-schedule), so all
+theorems above hold for it. -/
+theorem wake_aware_executions_are_executions (sw : Bool) (pages : List Page) (faults : List Attempt)
+    (ops : List Op) : ∃ ops', (runW sw (initW pages faults) ops).s = run (init pages faults) ops' :=
+  runW_is_run sw ops (initW pages faults)
+
+/-- NO LOST WAKE-UP: in every reachable state, a consumer task that is not runnable (its last poll returned
+`Pending`) - the pager alive, the stream not ended - has its waker REGISTERED in the channel, has nothing
+to consume (current page used up, channel empty) and the producer has not finished: so the producer's next
+`send`, or its return, wakes it. A `Pending` without a registered wake-up is not reachable. -/
+theorem no_lost_wakeup (pages : List Page) (faults : List Attempt) (ops : List Op)
+    (hrx : (runW true (initW pages faults) ops).s.rx = .alive)
+    (hend : (runW true (initW pages faults) ops).s.ended = false)
+    (hw : (runW true (initW pages faults) ops).woken = false) :
+    (runW true (initW pages faults) ops).registered = true ∧
+    (runW true (initW pages faults) ops).s.cur = [] ∧ (runW true (initW pages faults) ops).s.chan = none ∧
+    (runW true (initW pages faults) ops).s.pc ≠ .done :=
+  (reachableW pages faults ops).2.asleep hrx hend hw
+
+/-- Wake-aware termination: when the consumer is polled ONLY when woken (a bare `next().await` loop, no
+other wake source), scheduling producer and consumer task in turn still ends the stream within
+`measure (init ..)` rounds - after empty pages too - and an error-free run has then yielded everything. -/
+theorem bare_consumer_terminates (pages : List Page) (faults : List Attempt) (n : Nat)
+    (hn : faults.length + 5 * pages.length + todoRows pages + 7 ≤ n) :
+    (runEagerW true n (initW pages faults)).s.ended = true ∨
+    (runEagerW true n (initW pages faults)).s.ctorErr.isSome = true :=
+  runEagerW_ends n (initW pages faults) (inv_init pages faults) (uinv_init pages faults)
+    (winv_init pages faults) (by simp [initW, init]) (by
+      have : (initW pages faults).s = init pages faults := rfl
+      rw [this, measure_init]; exact hn)
+
+theorem bare_consumer_gets_everything (pages : List Page) (faults : List Attempt) (n : Nat)
+    (hn : faults.length + 5 * pages.length + todoRows pages + 7 ≤ n)
+    (hf : ∀ a ∈ faults, a = Attempt.ok ∨ a = Attempt.retry) :
+    (runEagerW true n (initW pages faults)).s.delivered = servedRows pages := by
+  obtain ⟨ops, hops, hnd⟩ := runEagerW_is_run true n (initW pages faults)
+  have hinit : (initW pages faults).s = init pages faults := rfl
+  rw [hinit] at hops
+  have hnf : ∀ e, Attempt.fail e ∉ faults := by
+    intro e he; rcases hf _ he with h | h <;> simp at h
+  have hig : Attempt.ignore ∉ faults := by
+    intro he; rcases hf _ he with h | h <;> simp at h
+  have hne := no_spurious_error pages faults ops hnf
+  have hend := bare_consumer_terminates pages faults n hn
+  rw [hops] at hend ⊢
+  have hend' : (run (init pages faults) ops).ended = true := by
+    rcases hend with h | h
+    · exact h
+    · simp [hne.2] at h
+  have inv := inv_reachable pages faults ops
+  have halive : (run (init pages faults) ops).rx = .alive := by
+    cases hr : (run (init pages faults) ops).rx with
+    | alive => rfl
+    | unbuilt => have := (inv.c.unbuilt hr).2.2.2.2.2.1; simp [hend'] at this
+    | dropped => exact absurd hr (run_no_drop_rx ops _ hnd (by simp [init]))
+  exact rows_exact pages faults ops hig halive hend' hne.1
+
+/-- WITHOUT the self-wake after an empty page (the model's `selfWake = false`, i.e. pager.rs 761 removed):
+there is a script - a non-first empty page followed by rows - on which the consumer task ends up neither
+runnable nor registered with rows still to come; and from such a state NOTHING is ever delivered again
+and the stream never ends, whatever the producer does (`stuck_forever`). -/
+theorem missing_self_wake_loses_the_wakeup :
+    ∃ pages faults ops,
+      let x := runW false (initW pages faults) ops
+      x.s.rx = .alive ∧ x.s.ended = false ∧ x.woken = false ∧ x.registered = false ∧
+      x.s.delivered ≠ servedRows pages ∧
+      ∀ more, (runW false x more).s.delivered = x.s.delivered ∧ (runW false x more).s.ended = false := by
+  refine ⟨[([0], some [1]), ([], some [2]), ([1], none)], [],
+    [.prod, .poll, .prod, .prod, .poll], ?_⟩
+  have h : (runW false (initW [([0], some [1]), ([], some [2]), ([1], none)] [])
+      [Op.prod, .poll, .prod, .prod, .poll]).woken = false ∧
+      (runW false (initW [([0], some [1]), ([], some [2]), ([1], none)] [])
+      [Op.prod, .poll, .prod, .prod, .poll]).registered = false := by decide
+  refine ⟨by decide, by decide, h.1, h.2, by decide, ?_⟩
+  intro more
+  have := stuck_forever false more _ h.1 h.2
+  exact ⟨this.2.2.1, by rw [this.2.2.2.1]; decide⟩
+
+/-- The same script with the self-wake: the bare consumer gets every row. -/
+example : (runEagerW true 40 (initW [([0], some [1]), ([], some [2]), ([1], none)] [])).s.delivered = [0, 1] ∧
+    (runEagerW false 40 (initW [([0], some [1]), ([], some [2]), ([1], none)] [])).s.delivered = [0] := by
+  decide
+
+end wake
 
 end ScyllaVerif.Props.C07
